@@ -7,12 +7,17 @@
       non-negative; CrossUnder exactly in the mirrored case;
     * Cross is their signed combination (the two never fire together) and swapping the two
       series negates its output at every step.
-  The reversal detectors (Upper/Lower/ReversalSignal) are modelled (`YataModel/Methods/Signals.lean`,
-  positions in unbounded `Nat` as in the repaired code) and at present compared with the
-  from-scratch rule by the correspondence run only; `ReversalSignal = lower − upper` is definitional
-  in the model (`ReversalSignal.next`).
+    * UpperReversalSignal (positions in unbounded `Nat` as in the repaired code), every `left, right ≥ 1`, every stream:
+      after step `t` the remembered pair is THE newest maximum of the positions `max(0, t+1−(left+right+1)) … t`
+      (`LastMaxAt`: maximal, everything newer strictly smaller — unique, `C14_newest_max_unique`), both on the fast
+      path and after the rescan that runs when the old maximum has left the window; the signal fires iff `t ≥ right`
+      and that position is `t − right` (`C14_upper_reversal`). The first input competes with the construction value
+      (the constant prehistory occupies position 0). LowerReversalSignal is the mirror image (`C14_lower_reversal`);
+      `ReversalSignal = lower − upper` (`C14_reversal_is_lower_minus_upper`).
 -/
 import YataProofs.Cross
+import YataProofs.Reversal
+import YataProofs.ReversalLow
 namespace Yata.C14
 open Yata
 variable {K : Type} [Field K] [LinearOrder K] [IsStrictOrderedRing K]
@@ -64,6 +69,33 @@ theorem C14_reversal_is_lower_minus_upper (s : ReversalSignal K) (x : K) {a b : 
     s.next x = .ok (Action.sub a b, { high := hi, low := lo }) := by
   simp [ReversalSignal.next, hl, hh]
 
+theorem C14_upper_reversal {P left right : Nat} (v : K) (hl : 0 < left) (hr : 0 < right) (hsum : left + right + 1 ≤ P - 1)
+    (xs : List K) :
+    ∃ s0 outs s', UpperReversalSignal.new P left right v = .ok s0 ∧ runM UpperReversalSignal.next s0 xs = .ok (outs, s') ∧
+      outs.length = xs.length ∧
+      ∀ t (ht : t < outs.length), ∃ mi mv,
+        LastMaxAt mi mv (UpperReversalSignal.firstPos (left + right + 1) (t + 1))
+          ((virt v (xs.take (t + 1))).drop (UpperReversalSignal.firstPos (left + right + 1) (t + 1))) ∧
+        outs[t] = (if t ≥ right ∧ mi = t - right then Action.buyAll else Action.none) :=
+  UpperReversalSignal.run_spec v hl hr hsum xs
+
+theorem C14_lower_reversal {P left right : Nat} (v : K) (hl : 0 < left) (hr : 0 < right) (hsum : left + right + 1 ≤ P - 1)
+    (xs : List K) :
+    ∃ s0 outs s', LowerReversalSignal.new P left right v = .ok s0 ∧ runM LowerReversalSignal.next s0 xs = .ok (outs, s') ∧
+      outs.length = xs.length ∧
+      ∀ t (ht : t < outs.length), ∃ mi mv,
+        LastMinAt mi mv (LowerReversalSignal.firstPos (left + right + 1) (t + 1))
+          ((virtMin v (xs.take (t + 1))).drop (LowerReversalSignal.firstPos (left + right + 1) (t + 1))) ∧
+        outs[t] = (if t ≥ right ∧ mi = t - right then Action.buyAll else Action.none) :=
+  LowerReversalSignal.run_spec v hl hr hsum xs
+
+/-- the newest maximum / minimum of a list of positions is unique: the rule determines the pivot position -/
+theorem C14_newest_max_unique {i i' : Nat} {v v' : K} {off : Nat} {l : List K}
+    (h : LastMaxAt i v off l) (h' : LastMaxAt i' v' off l) : i = i' ∧ v = v' := h.unique h'
+
+theorem C14_newest_min_unique {i i' : Nat} {v v' : K} {off : Nat} {l : List K}
+    (h : LastMinAt i v off l) (h' : LastMinAt i' v' off l) : i = i' ∧ v = v' := h.unique h'
+
 /-! non-vacuity: a touch (difference exactly zero) after a negative difference fires CrossAbove -/
 example : ((CrossAbove.new ((1 : ℚ), 2)).next (3, 3)).1 = Action.buyAll := by
   simp [CrossAbove.new, CrossAbove.next, CrossAbove.binary, Action.ofI8]
@@ -76,3 +108,7 @@ end Yata.C14
 #print axioms Yata.C14.C14_cross_antisymmetric
 #print axioms Yata.C14.C14_cross_antisymmetric_init
 #print axioms Yata.C14.C14_reversal_is_lower_minus_upper
+#print axioms Yata.C14.C14_upper_reversal
+#print axioms Yata.C14.C14_lower_reversal
+#print axioms Yata.C14.C14_newest_max_unique
+#print axioms Yata.C14.C14_newest_min_unique
